@@ -11,7 +11,7 @@ From Coq Require Import List NArith ZArith Bool Arith Lia.
 Import ListNotations.
 Require Import XV.Str XV.Json XV.TextFormat XV.Forest XV.Matcher XV.Differ XV.Spec XV.Path XV.WF XV.ForestProofs XV.TreeProofs
                XV.AttrProofs XV.PathProofs XV.Render XV.XmlFmt XV.Projections
-               XV.XmlFmtProofs0 XV.XmlFmtProofs1 XV.XmlFmtProofs2 XV.XmlFmtProofs3 XV.XmlFmtProofs4
+               XV.XmlFmtProofs0 XV.XmlFmtProofs1 XV.XmlFmtProofs2 XV.XmlFmtProofsR2 XV.XmlFmtProofs3 XV.XmlFmtProofs4
                XV.XmlFmtProofs6 XV.XmlFmtProofs7.
 Require XV.Placeholder XV.PlaceholderUndo.
 Require XV.DMP XV.DMPBase.
@@ -83,7 +83,6 @@ Variable o : oracle.
 Variable rootns : list (option str * str).
 Variable pe : penv.
 Variable root : id.
-Hypothesis Hrep : c_replace c = false.
 Let ws := ws_text c.
 
 Record ainv (f : forest) (st : fstate) (d : dt) : Prop := {
@@ -368,12 +367,13 @@ Lemma otxt_opt (t : option str) : match t with Some x => x | None => [] end = ot
 Proof. destruct t; reflexivity. Qed.
 
 Theorem accept_Text f st d n t f' st' :
-  ainv f st d -> fs_ph st = ph_init -> step_ok rootns st (DTextIn (gpath f n) t) ->
+  ainv f st d -> tinv (fs_ph st) -> step_ok rootns st (DTextIn (gpath f n) t) ->
+  room_ok c st (DTextIn (gpath f n) t) ->
   spec_apply root f (IText n t) = Some f' ->
   handle_d c o rootns st (DTextIn (gpath f n) t) = FOk st' ->
   exists d', erase d' = fs_tree st' /\ rel ws f' d' /\ did d' = root /\ alive_d d' = true.
 Proof.
-  intros HI Hph [Htxt Hold] Hs H. cbn [spec_apply] in Hs.
+  intros HI Hph [Htxt Hold] Hroom Hs H. cbn [spec_apply room_ok] in Hs, Hroom.
   destruct (alive f root n) eqn:C1; [|discriminate]. inversion Hs; subst f'. clear Hs.
   cbn [handle_d] in H. unfold handle_UpdateTextIn in H. apply fbind_ok in H as (p & Er & H).
   destruct (resolve_node f st d n HI C1) as (q & kn & Er' & HL & HG & Hk). unfold gpath in Er. rewrite Er in Er'. inversion Er'; subst p. clear Er'.
@@ -397,24 +397,24 @@ Proof.
   - inversion H; subst st'. clear H. apply (Hfin t).
     + unfold txt_ok. rewrite otxt_opt, (astr_plain _ Htxt). reflexivity.
     + cbn [fs_tree]. apply map_at_ext. intros x Hx. rewrite Gq in Hx. inversion Hx; subst x. cbn [erase]. destruct node; reflexivity.
-  - rewrite Hph in H. apply fbind_ok in H as ([[s' out] any] & Em & H).
-    destruct (make_diff_tags_spec c o _ _ false _ Hrep (Hold eq_refl) Htxt Em) as (dd & Er2 & T1 & T2 & Fd).
-    inversion Er2; subst s' out any. clear Er2. inversion H; subst st'. clear H.
-    set (newtext := if match dd with [] => false | _ => true end then Some (enc dd) else None).
-    assert (Hnt : otxt newtext = enc dd) by (unfold newtext; destruct dd; reflexivity).
-    assert (Fp : Forall (fun sg : DMP.op * str => plain (snd sg)) dd) by (eapply Forall_impl; [|exact Fd]; intros a [Ha _]; exact Ha).
+  - destruct (make_diff_tags_gen c o (fs_ph st) _ _ false Hph (Hold eq_refl) Htxt Hroom)
+      as (s' & dd & Em & Hs' & _ & _ & Fd & T1 & T2 & _).
+    rewrite Em in H. cbn [fbind] in H. inversion H; subst st'. clear H.
+    set (newtext := if match dd with [] => false | _ => true end then Some (encp dd) else None).
+    assert (Hnt : otxt newtext = encp dd) by (unfold newtext; destruct dd; reflexivity).
     apply (Hfin newtext).
-    + unfold txt_ok. rewrite otxt_opt, Hnt, (astr_enc dd Fp), T2. symmetry. apply ntxt_norm_if.
+    + unfold txt_ok. rewrite otxt_opt, Hnt, (astr_encp s' dd Hs' Fd), T2. symmetry. apply ntxt_norm_if.
     + cbn [fs_tree]. apply map_at_ext. intros x Hx. rewrite Gq in Hx. inversion Hx; subst x. cbn [erase]. destruct node; reflexivity.
 Qed.
 
 Theorem accept_Tail f st d n t f' st' :
-  ainv f st d -> fs_ph st = ph_init -> step_ok rootns st (DTextAfter (gpath f n) t) ->
+  ainv f st d -> tinv (fs_ph st) -> step_ok rootns st (DTextAfter (gpath f n) t) ->
+  room_ok c st (DTextAfter (gpath f n) t) ->
   spec_apply root f (ITail n t) = Some f' ->
   handle_d c o rootns st (DTextAfter (gpath f n) t) = FOk st' ->
   exists d', erase d' = fs_tree st' /\ rel ws f' d' /\ did d' = root /\ alive_d d' = true.
 Proof.
-  intros HI Hph [Htxt Hold] Hs H. cbn [spec_apply] in Hs.
+  intros HI Hph [Htxt Hold] Hroom Hs H. cbn [spec_apply room_ok] in Hs, Hroom.
   destruct (alive f root n && negb (Nat.eqb n root)) eqn:C; [|discriminate]. apply andb_true_iff in C as [C1 C2].
   inversion Hs; subst f'. clear Hs.
   cbn [handle_d] in H. unfold handle_UpdateTextAfter in H. apply fbind_ok in H as (p & Er & H).
@@ -428,16 +428,15 @@ Proof.
   pose proof (lab_of_rel f n node kids (rel_get ws f q d _ (ai_rel _ _ _ HI) HL HG)) as (M1 & M2 & M3 & M4).
   assert (Htl : xtail (erase (DN n node kids)) = xtail node) by (destruct node; reflexivity).
   rewrite Htl in *.
-  rewrite Hph in H. apply fbind_ok in H as ([[s' out] any] & Em & H).
-  destruct (make_diff_tags_spec c o _ _ true _ Hrep Hpl Htxt Em) as (dd & Er2 & T1 & T2 & Fd).
-  inversion Er2; subst s' out any. clear Er2. inversion H; subst st'. clear H.
-  assert (Fp : Forall (fun sg : DMP.op * str => plain (snd sg)) dd) by (eapply Forall_impl; [|exact Fd]; intros a [Ha _]; exact Ha).
-  apply (node_action f st d n _ _ q node kids (with_tail node (enc dd)) HI HL HG).
+  destruct (make_diff_tags_gen c o (fs_ph st) _ _ true Hph Hpl Htxt Hroom)
+    as (s' & dd & Em & Hs' & _ & _ & Fd & T1 & T2 & _).
+  rewrite Em in H. cbn [fbind] in H. inversion H; subst st'. clear H.
+  apply (node_action f st d n _ _ q node kids (with_tail node (encp dd)) HI HL HG).
   - cbn [fs_tree]. apply map_at_ext. intros x Hx. rewrite Gq in Hx. inversion Hx; subst x. cbn [erase]. destruct node; reflexivity.
   - destruct node; reflexivity.
   - unfold lab_ok. rewrite flab_set_lab, Nat.eqb_refl. unfold labof. cbn [ltag lattrs ltext ltail].
     destruct node as [tg at_ tx tl ks]. cbn [with_tail xtag xattrs xtext xtail] in *. repeat split; auto.
-    unfold txt_ok. rewrite otxt_opt, (astr_enc dd Fp), T2. symmetry. apply ntxt_norm_if.
+    unfold txt_ok. rewrite otxt_opt, (astr_encp s' dd Hs' Fd), T2. symmetry. apply ntxt_norm_if.
 Qed.
 
 (* ------------------------------------------------------------------ *)
